@@ -2176,7 +2176,10 @@ func (cs Conditions) inlineTagFilter(tags map[string]TagDetails) ConditionsSet {
 		}
 		origLen := len(csNew)
 		for range tagConditionsSet {
-			csNew = append(csNew, csNew[:origLen]...)
+			for _, orig := range csNew[:origLen] {
+				// copy the conditions, appending to them below must not modify the original
+				csNew = append(csNew, append(Conditions(nil), orig...))
+			}
 		}
 		a := c.Accept & certain
 		for i := range csNew {
